@@ -84,7 +84,10 @@ impl Prop for C14 {
         for (i, name) in names.iter().enumerate() {
             let pw = pws[(i + rng.below(3)) % 3];
             let mut files = vec![]; if let Some(b) = &cur { files.push(("ring.txt".to_string(), b.clone())); }
-            let world = World { files, env: vec![("KESTREL_PASSWORD".into(), pw.into())], stdin: format!("{}\n", name).into_bytes() };
+            // the name is the first LINE of standard input; what follows it (more lines, bytes that are not UTF-8, CR LF endings) is not part of it
+            let mut stdin = format!("{}\n", name).into_bytes();
+            match (i + getn(c, "seed")) % 4 { 1 => stdin.extend_from_slice(&[0xff, 0xfe, b'x', b'\n']), 2 => { stdin.pop(); stdin.extend_from_slice(b"\r\nsecond line\n"); } _ => {} }
+            let world = World { files, env: vec![("KESTREL_PASSWORD".into(), pw.into())], stdin };
             let args = sv(&["key", "gen", "-o", "ring.txt", "--env-pass"]);
             let obs = run_kestrel(&world, &args);
             let mo = model_cli(m, &world, &args, &rng.bytes(32), &rng.bytes(32)); o.validated += 1;
